@@ -178,5 +178,9 @@ def crowding (pick : Indv → Indv → Nat → Indv) (closer : Nat → Bool)
 def detCrowding (closer : Nat → Bool) (population : List Indv) (target : Nat) : Option (List Indv) :=
   crowding (fun c p _ => detMostFit c p) closer population target
 
+/-- `GeneralizedCrowding.__call__` returns `population[:target_population_size]` of the list built above -/
+def detCrowdingCall (closer : Nat → Bool) (population : List Indv) (target : Nat) : Option (List Indv) :=
+  (detCrowding closer population target).map (·.take target)
+
 end Sel
 end Bingo
